@@ -235,8 +235,9 @@ func (c C16) Execute(sc *drv.Scenario, w *drv.World) (*drv.Violation, error) {
 			v.Step = i
 			return v, nil
 		}
-		if op.Op != "njsleep" && op.Op != "njsetup" {
-			// the clock always moves on between operations so that re-stamping is visible
+		if op.Op != "njsleep" && op.Op != "njsetup" && (i*7+len(sc.Steps))%5 != 0 {
+			// the clock usually moves on between operations so that re-stamping is visible; now and then
+			// two operations fall into the same second (equal stamps)
 			if err := w.Sleep(2000); err != nil {
 				return nil, err
 			}
